@@ -11,7 +11,7 @@ verus! {
    derive Clone, Copy
 @*/
 /*@type lang/syntax/src/lib.rs :: enum BuiltinTypeRole
-   derive Clone, Copy
+   derive Clone, Copy, PartialEq, Eq, Structural
 @*/
 pub mod zydeco_syntax {
     use vstd::prelude::*;
@@ -50,6 +50,63 @@ impl BuiltinValueAtom {
         // [ATOM-EXCLUSIVE] every atom is decided by exactly one of the two tables
         r is Some <==> !(self is Reader || self is Writer),
 /*@end*/
+}
+
+/*@type lang/syntax/src/lib.rs :: enum BuiltinTypeUniverse
+   derive Clone, Copy, PartialEq, Eq, Structural
+@*/
+impl BuiltinTypeRole {
+/*@fn lang/syntax/src/lib.rs :: impl BuiltinTypeRole :: fn universe
+@*/
+    ensures
+        // [ROLE-UNIVERSE] Reader and Writer are value-universe roles, OS a computation-universe role
+        r == (if self is OS { BuiltinTypeUniverse::Computation } else { BuiltinTypeUniverse::Value }),
+/*@end*/
+}
+
+// ---- the capability arm of the matcher (BuiltinClassifierMatcher::matches_value, rule R10): when may an ABSTRACT witness stand where the
+// Builtin ABI asks for a capability atom? Arena vocabulary is signature-only; the registry lookup is an uninterpreted function. ----
+/*@type lang/syntax/src/lib.rs :: enum BuiltinRole
+   derive Clone, Copy, PartialEq, Eq, Structural
+@*/
+#[derive(Clone, Copy, PartialEq, Eq, Structural)]
+pub struct BuiltinValueRole { pub raw: u64 }   // stand-in: the 126 value roles play no part in this arm
+pub mod ss {
+    use vstd::prelude::*;
+    #[derive(Clone, Copy)]
+    pub struct AbstId { pub raw: u64 }
+}
+pub struct Roles { pub raw: u64 }
+pub uninterp spec fn witness_role(roles: Roles, w: ss::AbstId) -> Option<BuiltinRole>;
+impl Roles {
+    #[verifier::external_body]
+    pub fn witness(&self, witness: ss::AbstId) -> (r: Option<BuiltinRole>) ensures r == witness_role(*self, witness) { unimplemented!() }
+}
+pub struct StaticsArena { pub builtin_roles: Roles }
+pub struct BuiltinClassifierMatcher<'a> { pub statics: &'a StaticsArena }
+// A-is_some_and: std's Option::is_some_and(f) is `match self { None => false, Some(x) => f(x) }`
+pub assume_specification<T, F: FnOnce(T) -> bool>[ Option::<T>::is_some_and ](o: Option<T>, f: F) -> (r: bool)
+    requires o matches Some(x) ==> call_requires(f, (x,)),
+    ensures o is None ==> !r, o matches Some(x) ==> call_ensures(f, (x,), r);
+impl<'a> BuiltinClassifierMatcher<'a> {
+    pub fn capability_arm(&mut self, $cap.0: ss::AbstId, $cap.1: BuiltinValueAtom) -> (r: bool)
+        ensures
+            // [MATCH-CAPABILITY] an abstract witness satisfies an atom exactly when the atom is a capability atom and the witness is the
+            // one registered for THAT atom's own role (a Reader is not satisfied by the Writer witness, nor by "some value-universe witness")
+            r <==> (match $cap.1 {
+                BuiltinValueAtom::Reader => witness_role(old(self).statics.builtin_roles, $cap.0) == Some(BuiltinRole::Type(BuiltinTypeRole::Reader)),
+                BuiltinValueAtom::Writer => witness_role(old(self).statics.builtin_roles, $cap.0) == Some(BuiltinRole::Type(BuiltinTypeRole::Writer)),
+                _ => false,
+            }),
+    {
+/*@arm lang/statics/src/builtin.rs :: impl BuiltinClassifierMatcher :: fn matches_value :: arm /Type..Abst\(\w+\)\), BuiltinValueClassifier..Atom\(\w+\)/
+   bind cap
+   closure 0: -> (b: bool)
+       ensures
+       // [MATCH-CAPABILITY-role] the test applied to the atom's role: the witness is registered for exactly that role
+       b == (witness_role(self.statics.builtin_roles, $cap.0) == Some(BuiltinRole::Type(role)))
+@*/
+    }
 }
 } // verus!
 fn main() {}
